@@ -80,6 +80,11 @@ class Builder:
         tmp = obj + '.tmp%d' % os.getpid()
         r = sh([CXX] + self.flags + ['-c', src, '-o', tmp])
         if r.returncode != 0:
+            # a compile error is reported as a violation (an operation of the property's domain is gone), so rule out
+            # a transient failure (file caught mid-write, out of memory under load) by compiling once more
+            time.sleep(0.5)
+            r = sh([CXX] + self.flags + ['-c', src, '-o', tmp])
+        if r.returncode != 0:
             return False, r.stdout
         os.replace(tmp, obj)
         return True, ''
@@ -334,10 +339,12 @@ def shard_seed(seed, name, pid):
 
 
 def write_evidence(pid, tier, seed, level, coverage, wall, violations, assumptions):
-    os.makedirs(os.path.join(VERIF, 'evidence'), exist_ok=True)
+    # runs against a scratch copy (sensitivity runs, VERIF_REPO set) must not overwrite the committed evidence
+    evdir = 'evidence' if os.path.realpath(REPO) == '/repo' else 'evidence_scratch'
+    os.makedirs(os.path.join(VERIF, evdir), exist_ok=True)
     ev = {'property_id': pid, 'tier': tier, 'seed': seed, 'level': level, 'coverage': coverage,
           'assumptions': assumptions, 'wall_s': round(wall, 2), 'violations': violations}
-    with open(os.path.join(VERIF, 'evidence', pid + '.json'), 'w') as f:
+    with open(os.path.join(VERIF, evdir, pid + '.json'), 'w') as f:
         json.dump(ev, f, indent=1)
         f.write('\n')
 
